@@ -141,10 +141,18 @@ def observe(sb, case, task, res, p, launcher, pwd):
     out.append({'line': line, 'words': ([sb.probe] + argv) if argv is not None else 'not-run'})
     exec_sh = open('%s/%s.exec.sh' % (task['task_sandbox_path'], task['uid'])).read()
     envr = res['ranks'].get(0, {}).get('env')
-    for k, v in case['env'].items():
-        m = re.search(r'^export %s=.*?(?=\n(?:export |\n|#))' % re.escape(k), exec_sh, re.M | re.S)
-        out.append({'line': m.group(0) if m else None,
-                    'parsed': [k, envr.get(k)] if envr is not None else 'not-run'})
+    # the export lines as the real _get_task_env wrote them (values may contain newlines: cut at the next key)
+    text = p._get_task_env(task, launcher)
+    keys = list(case['env'].keys())
+    pos = 0
+    for i, k in enumerate(keys):
+        try:
+            start = text.index('export %s=' % k, pos)
+            end = text.index('\nexport %s=' % keys[i + 1], start) if i + 1 < len(keys) else len(text) - 1
+            line = text[start:end]; pos = end
+        except ValueError:
+            line = None
+        out.append({'line': line, 'parsed': [k, envr.get(k)] if envr is not None else 'not-run'})
     m = re.search(r'^export RP_TASK_SANDBOX="(.*)"$', exec_sh, re.M)
     out.append({'gpr': re.search(r'^export RP_GPUS_PER_RANK=(.*)$', exec_sh, re.M).group(1),
                 'ref': m.group(1) if m else None,
@@ -388,7 +396,8 @@ def _mk(**kw):
 
 CORPUS = [
     _mk(env={'CFG': '{"a": 1}'}),                                  # F14: double quote in an environment value
-    _mk(env={'P': 'C:\\dir\\'}),                                   # trailing backslash in a value
+    _mk(env={'P': 'C:\\dir\\'}),
+    _mk(env={'X': '\u00e9&]\n\n[', 'Y': 'a\nexport Z=1', 'Z': ''}),             # values with blank lines / looking like export lines                                   # trailing backslash in a value
     _mk(sandbox='sibling'),                                        # sandbox sharing a string prefix with the pilot sandbox
     _mk(stdout='my out.txt', stderr='my err.txt'),                 # stdout/stderr names with spaces
     _mk(args=['a b', '', "x'y", 'q"r', '*', 'back\\slash', 'new\nline', 'ü']),
